@@ -45,6 +45,56 @@ def joinedErrors (fails : List Bool) (completed : List Nat) (stopAt : Option Nat
 def joinedErrorsOld (fails : List Bool) (completed : List Nat) : List PErrItem :=
   (completed.filter fun i => fails.getD i false).map .job
 
+/-! ### The join: Parallelize returns only after every dispatched job has finished
+
+  What a caller of `thread.Parallelize` observes of one call, as events in the order in which they
+  happen: job `i` starts (its goroutine runs, holding a semaphore slot), job `i` finishes (before
+  it gives the slot back and before `wg.Done`), the call returns.  The schedule — which event
+  comes next — belongs to the Go runtime; the code decides which events are ENABLED:
+  a job starts only before the return, only while fewer than `par` jobs are running
+  (the semaphore), and at most once; the call returns only when no started job is still running
+  (`wg.Wait()` after the dispatch loop).  Events that are not enabled leave the state unchanged,
+  so replaying a recorded event list shows at once whether the implementation did something the
+  code (as modelled) cannot do. -/
+
+inductive PEv where
+  | start (i : Nat)
+  | finish (i : Nat)
+  | ret
+  deriving DecidableEq, Repr
+
+structure PSt where
+  started : List Nat     -- every job whose goroutine has begun
+  running : List Nat     -- started and not finished
+  finished : List Nat
+  returned : Bool
+  deriving Repr
+
+def PSt.init : PSt := { started := [], running := [], finished := [], returned := false }
+
+/-- One event.  `failFast = some fails` is the VARIANT that does not exist in the code (the stored
+    regression): the call may also return as soon as some finished job has failed. -/
+def pstepWith (failFast : Option (List Bool)) (par : Nat) (s : PSt) : PEv → PSt
+  | .start i =>
+    if s.returned || decide (par ≤ s.running.length) || s.started.contains i then s
+    else { s with started := i :: s.started, running := i :: s.running }
+  | .finish i =>
+    if s.running.contains i then { s with running := s.running.erase i, finished := i :: s.finished } else s
+  | .ret =>
+    if s.returned then s
+    else if s.running.isEmpty then { s with returned := true }
+    else match failFast with
+      | some fails => if s.finished.any (fun i => fails.getD i false) then { s with returned := true } else s
+      | none => s
+
+/-- The code that exists: `wg.Wait()`. -/
+def pstep (par : Nat) (s : PSt) (e : PEv) : PSt := pstepWith none par s e
+
+def prun (par : Nat) (s : PSt) (evs : List PEv) : PSt := evs.foldl (pstep par) s
+
+def prunWith (failFast : Option (List Bool)) (par : Nat) (s : PSt) (evs : List PEv) : PSt :=
+  evs.foldl (pstepWith failFast par) s
+
 /-- "Collect then sort": results arrive in completion order (a permutation of the jobs'
     results) and are sorted with a comparison `le`. -/
 def collectSorted {α : Type} (le : α → α → Bool) (arrived : List α) : List α := arrived.mergeSort le
